@@ -54,6 +54,33 @@ Proof.
   destruct o; rewrite IH; [apply sent_nodes | reflexivity].
 Qed.
 
+(* with no request chaining scripted, the client application does not touch any table either *)
+Lemma schedule_copies_chains : forall fate it w, w_chains (schedule_copies fate it w) = w_chains w.
+Proof.
+  induction fate as [|d r IH]; intros it w; cbn [schedule_copies]; [reflexivity|].
+  rewrite IH. destruct (d =? 0); reflexivity.
+Qed.
+
+Lemma sent_chains : forall src dst a w, w_chains (sent src dst a w) = w_chains w.
+Proof.
+  intros. unfold sent.
+  match goal with |- w_chains (fold_left ?f (w_injs ?w1) ?w1) = _ =>
+    assert (H : w_chains w1 = w_chains w) by (rewrite schedule_copies_chains; reflexivity);
+    generalize (w_injs w1); generalize dependent w1
+  end.
+  intros w1 H l. revert w1 H.
+  induction l as [|i r IH]; intros w1 H; cbn [fold_left]; [exact H|].
+  apply IH. destruct (i_after i =? w_nframes w); exact H.
+Qed.
+
+Lemma process_outs_c_nodes : forall outs node peer w, w_chains w = [] -> w_nodes (process_outs_c node peer outs w) = w_nodes w.
+Proof.
+  induction outs as [|o r IH]; intros node peer w Hc; cbn [process_outs_c]; [reflexivity|].
+  destruct o.
+  - rewrite IH; [apply sent_nodes | rewrite sent_chains; exact Hc].
+  - cbn [w_chains log]. rewrite Hc. cbn [take_chain]. rewrite IH; [reflexivity | exact Hc].
+Qed.
+
 Lemma get_put_other : forall n ns addr, addr <> c_addr (n_cfg n) -> get_node addr (put_node n ns) = get_node addr ns.
 Proof.
   intros n ns addr Hne. induction ns as [|m r IH]; [reflexivity|]. cbn [put_node].
@@ -65,18 +92,18 @@ Qed.
 (* a reply that does match: only that one entry of that one table is replaced or removed *)
 Lemma deliver_reply_only_match : forall src dst a w n i t,
   to_client_side a = true -> get_node dst (w_nodes w) = Some n -> c_raw (n_cfg n) = false ->
-  find_tr (a_invoke a) src (n_ctr n) O = Some (i, t) ->
+  find_tr (a_invoke a) src (n_ctr n) O = Some (i, t) -> w_chains w = [] ->
   s_peer t = src /\ s_invoke t = a_invoke a /\
   exists l', w_nodes (deliver src dst a w) = put_node (mkN (n_cfg n) (n_next n) l' (n_str n)) (w_nodes w) /\
              ((exists t', l' = replace_nth i t' (n_ctr n)) \/ l' = remove_nth i (n_ctr n)).
 Proof.
-  intros src dst a w n i t Hc Hn Hraw Hf.
+  intros src dst a w n i t Hc Hn Hraw Hf Hch.
   destruct (find_tr_spec _ _ _ _ _ _ Hf) as (_ & _ & Hm & _). apply tr_matches_eq in Hm. destruct Hm as (Hm1 & Hm2).
   split; [auto|]. split; [auto|].
   unfold deliver. rewrite Hn, Hraw. destruct (to_client_side_type a Hc) as [-> ->]. rewrite Hc, Hf.
   unfold run_on. destruct (c_confirmation a _) as [st e].
   eexists. split.
-  - destruct e; cbn [w_nodes log]; rewrite process_outs_client_nodes; cbn [w_nodes set_tctr set_nodes]; reflexivity.
+  - destruct e; cbn [w_nodes log]; rewrite process_outs_c_nodes by exact Hch; cbn [w_nodes set_tctr set_nodes]; reflexivity.
   - destruct (h_live st); [left; eexists; reflexivity | right; reflexivity].
 Qed.
 
